@@ -132,6 +132,10 @@ def name_variants(program):
     if len(workers) > 1:
         out.append(("workers-rotated", dict(zip(workers, workers[1:] + workers[:1]))))
         out.append(("workers-prefix-related", dict(zip(workers, ["m", "m_1", "m1", "m_"]))))
+    for st, ns in names.items():
+        if st not in ("task", "worker") and len(ns) > 1:
+            out.append((f"{st}s-rotated", dict(zip(ns, ns[1:] + ns[:1]))))
+            out.append((f"{st}s-reversed-sort", dict(zip(sorted(ns), sorted(ns, reverse=True)))))
     out.append(("long-unicode-spaces", {n: f"élément {n} – with spaces and a rather long name ({i})" for i, n in enumerate(allnames)}))
     out.append(("zz-prefix", {n: "zz" + n for n in allnames}))
     if tasks and workers:
@@ -162,7 +166,14 @@ def summary(program, solver_kw=None):
             opt = s2._model.eval(s2._objective._target, model_completion=True).as_long()
         except Exception:
             opt = None
-    return {"A": A, "verdict": verdict, "optimum": opt, "checks": st.checks, "n": len(A)}
+    vec = None
+    if sol and b2.pb.objectives:
+        try:
+            vec = [s2._model.eval(o._target, model_completion=True).as_long() for o in list(b2.pb.objectives.values())
+                   if o.name != "MinimizeEquivalentObjective"]
+        except Exception:
+            vec = None
+    return {"A": A, "verdict": verdict, "optimum": opt, "objective_vector": vec, "checks": st.checks, "n": len(A)}
 
 
 def diff(base, other):
@@ -174,6 +185,8 @@ def diff(base, other):
         return "admitted-set", f"{base['n']} vs {other['n']} leaves; only in base {only_b}; only in variant {only_o}"
     if base["optimum"] != other["optimum"]:
         return "optimum", f"{base['optimum']} vs {other['optimum']}"
+    if base.get("lex") and base["objective_vector"] != other["objective_vector"]:
+        return "lexicographic-optimum", f"{base['objective_vector']} vs {other['objective_vector']}"
     return None
 
 
@@ -220,6 +233,7 @@ def variant_job(j):
         sigs = {}
         for skw in skws:
             base = summary(program, skw)
+            base["lex"] = skw.get("optimize_priority") == "lex"
             res["checks"] += base["checks"]
             res["leaves"] += base["n"]
             ov, total = order_variants(program, j["cap"])
@@ -348,6 +362,7 @@ def replay(inst):
         print(json.dumps({"violation": bad[0]["instance"]["what"] if bad else None, "detail": bad[0]["instance"]["detail"] if bad else None, "error": r.get("error")}))
         return 1 if bad else 0
     base = summary(inst["program"], inst["solver"])
+    base["lex"] = (inst["solver"] or {}).get("optimize_priority") == "lex"
     s = summary(inst["variant"], inst["solver"])
     d_ = diff(base, s)
     print(json.dumps({"violation": d_[0] if d_ else None, "detail": d_[1] if d_ else None}))
